@@ -63,6 +63,10 @@ def wf_violations(c, created, case, where):
             names = c.index if not hasattr(c, 'names') else c.names
             if len(names) and (vals.shape != (len(names), n)):
                 out.append(Violation('values is the variables-by-periods stack', 'c09.values-shape', case, (len(names), n), vals.shape, 'values'))
+            elif len(names):
+                want = np.array([c.__dict__['_' + k] for k in names])
+                if want.shape != vals.shape or not bool(np.all((want == vals) | ((want != want) & (vals != vals)) if want.dtype.kind == 'f' else (want == vals))):
+                    out.append(Violation('values is the variables-by-periods stack in declaration order', 'c09.values-content', case, want.tolist()[:2], vals.tolist()[:2], 'values'))
             if c.size != len(names) * n:
                 out.append(Violation('size is the element count of values', 'c09.size', case, len(names) * n, c.size, 'size'))
         except Exception as ex:  # noqa: BLE001
